@@ -126,11 +126,28 @@ def rand_schedule(rng, net, T, ids, site, kw):
     return X, kind + ("/balanced" if bal else "")
 
 
+def crash_case(site, basic, idx, e):
+    import traceback
+    return dict(input=dict(site=site, basic=basic, idx=idx, crash=True),
+                impl=dict(crash="%s: %s" % (type(e).__name__, e), trace=traceback.format_exc()[-1500:]),
+                coq="", ambiguous=True, nontrivial=False, kind="crash", sig=["crash", site, basic, idx])
+
+
 def gen_cases(rng, n, tier):
     cfgs = configs()
     per = max(1, n // len(cfgs))
     cases = []
     for site, basic, idx, kw in cfgs:
+        try:
+            cases.extend(gen_config_cases(rng, per, site, basic, idx, kw))
+        except Exception as e:  # noqa
+            cases.append(crash_case(site, basic, idx, e))
+    return cases
+
+
+def gen_config_cases(rng, per, site, basic, idx, kw):
+    cases = []
+    if True:
         net = get_net(site, basic, idx)
         ids = list(net.station_ids)
         A, L, ph = c06.read_back(net)
@@ -170,6 +187,8 @@ def line_currents(idx, phases, x):
 
 def monitor(case):
     inp, impl = case["input"], case["impl"]
+    if inp.get("crash"):
+        return "site factory / network raised %s" % impl["crash"]
     site, idx, X, T = inp["site"], inp["idx"], inp["X"], inp["T"]
     kw = dump_sites.CONFIGS[site][idx]
     ids, phases = impl["ids"], impl["phases"]
@@ -265,22 +284,40 @@ def search(rng, budget_s, broken):
     t0 = time.time()
     # structural parts of the property first (phase angles, coverage)
     for site, basic, idx, kw in cfgs:
-        n = len(get_net(site, basic, idx).station_ids)
+        try:
+            n = len(get_net(site, basic, idx).station_ids)
+        except Exception as e:  # noqa
+            c = crash_case(site, basic, idx, e)
+            return dict(case=c["input"], impl=c["impl"], why=monitor(c))
         X = [[0.0]] * n
         impl = observe(site, basic, idx, X, 1)
         c = dict(input=dict(site=site, basic=basic, idx=idx, X=X, T=1), impl=impl)
         r = monitor(c)
         if r:
             return dict(case=c["input"], impl=impl, why=r)
+    # then maximise the load on every configuration in turn (short ascents, several rounds)
+    rounds = 0
     while time.time() - t0 < budget_s:
-        site, basic, idx, kw = rng.choice(cfgs)
-        w = ascent(rng, site, basic, idx, min(6.0, budget_s / 6))
-        if w:
-            return w
+        order = list(cfgs)
+        rng.shuffle(order)
+        for site, basic, idx, kw in order:
+            if time.time() - t0 >= budget_s:
+                break
+            w = ascent(rng, site, basic, idx, 1.0 + rounds)
+            if w:
+                return w
+        rounds += 1
     return None
 
 
 def replay(w):
     inp = w["case"]
+    if inp.get("crash"):
+        try:
+            _nets.pop((inp["site"], inp["basic"], inp["idx"]), None)
+            get_net(inp["site"], inp["basic"], inp["idx"])
+        except Exception as e:  # noqa
+            return "site factory raised %s" % type(e).__name__
+        return None
     impl = observe(inp["site"], inp["basic"], inp["idx"], inp["X"], inp["T"])
     return monitor(dict(input=inp, impl=impl))
